@@ -1409,6 +1409,7 @@ class Interp:
         self.assume(_b(spec.inv(self, fr.locals, None)))
         if not self.is_true(self.eval(st.test, fr)):
             return                                   # continuation: invariant and negated condition
+        v0 = spec.variant(self, fr.locals) if spec.variant is not None else None
         try:
             self.exec_block(st.body, fr)
         except _Break:
@@ -1416,6 +1417,11 @@ class Interp:
         except _Continue:
             pass
         self._loop_check(f"{fr.qualname} loop invariant preserved", spec.inv(self, fr.locals, None))
+        if v0 is not None:
+            again = self.truth(self.eval(st.test, fr))
+            v1 = spec.variant(self, fr.locals)
+            self._loop_check(f"{fr.qualname} termination: the variant is non-negative and decreases whenever the loop continues",
+                             z3.Implies(_b(again), z3.And(v0 >= 0, v1 < v0)))
         raise Infeasible()
 
     def exec_while(self, st, fr):
@@ -1563,7 +1569,13 @@ class Interp:
         out = []
         for e in node.elts:
             if isinstance(e, ast.Starred):
-                out.extend(self.iterate(self.eval(e.value, fr)))
+                sv = self.eval(e.value, fr)
+                if isinstance(sv, SOpaque) and hasattr(sv, "concat_display"):
+                    # [*a, *b, x] over lists of unknown length: the abstract list decides
+                    rest = [self.eval(x.value, fr) if isinstance(x, ast.Starred) else ("item", self.eval(x, fr))
+                            for x in node.elts[node.elts.index(e) + 1:]]
+                    return sv.concat_display(self, out, rest)
+                out.extend(self.iterate(sv))
             else:
                 out.append(self.eval(e, fr))
         return SList(out)
@@ -2218,10 +2230,11 @@ class CyclicValue(Exception):
 
 
 class LoopSpec:
-    def __init__(self, inv, havoc=None, mutates=()):
+    def __init__(self, inv, havoc=None, mutates=(), variant=None):
         self.inv = inv              # (I, locals, seen: z3 Seq JV) -> z3 Bool
         self.havoc = havoc or {}    # variable -> (I) -> fresh value of the right shape
         self.mutates = set(mutates)
+        self.variant = variant      # while loops: (I, locals) -> z3 Int that is >= 0 and decreases whenever the loop goes on
 
 
 def _b(x):
